@@ -27,7 +27,8 @@ Basis == { Rq("read", 1, 0, 3, "INT", <<>>), Rq("read", 1, 1, 1, "INT", <<>>), R
                 Rq("write", 7, 0, 2, "UINT", << <<64, 156>>, <<255, 255>> >>), Rq("read", 7, 0, 2, "UINT", <<>>),
                 Rq("write", 8, 0, 1, "UDINT", << <<0, 94, 208, 178>> >>), Rq("read", 8, 0, 1, "UDINT", <<>>),
                 Rq("write", 11, 0, 2, "INT", << <<11, 0>>, <<12, 0>> >>), Rq("read", 10, 0, 2, "DINT", <<>>), Rq("read", 11, 0, 2, "INT", <<>>),
-                Rq("write", 12, 0 - 1, 1, "SINT", << <<9>> >>), Rq("read", 9, 0 - 1, 1, "INT", <<>>),    \* more than ten auto-allocated tags
+                Rq("write", 12, 0 - 1, 1, "SINT", << <<9>> >>), Rq("read", 9, 0 - 1, 1, "INT", <<>>),
+                Rq("read", 12, 0 - 1, 1, "SINT", <<>>), Rq("read", 5, 2, 1, "SINT", <<>>),           \* one-octet values: odd-sized replies inside a multi-read    \* more than ten auto-allocated tags
                 Rq("read", 1, 2, 3, "INT", <<>>),                          \* beyond the end
                 Rq("read", 1, 5, 1, "INT", <<>>),                          \* index beyond the end
                 Rq("read", 0, 0 - 1, 1, "INT", <<>>) }                     \* unknown tag
@@ -43,7 +44,8 @@ ASSUME \A r \in RawReqs : \A w \in {"simple", "ucsend"} :
 ASSUME PrintT(ToJson([k |-> "rawreg", f |-> Frame("register", 0, "simple", Rq("read", 1, 0, 1, "INT", <<>>)),
                       fb |-> FrameBytes(ICfg, Frame("register", 0, "simple", Rq("read", 1, 0, 1, "INT", <<>>)))]))
 \* connected messaging by the reference encoder: (Large) Forward Open, SendUnitData with sequence counts, Forward Close
-ISide(id, size, type) == [id |-> id, rpi |-> <<64, 66, 15, 0>>, size |-> size, variable |-> 1, priority |-> 0, type |-> type, redundant |-> 0]
+ISide(id, size, type) == [id |-> id, rpi |-> (IF type = 2 /\ id # <<1, 0, 254, 128>> THEN <<64, 66, 15, 0>> ELSE <<144, 208, 3, 0>>), size |-> size,
+                          variable |-> 1, priority |-> 0, type |-> type, redundant |-> 0]      \* (the two directions ask for different packet intervals)
 IFO(otid, ottype, size, serial) ==
   [prio |-> 10, ticks |-> 5, ot |-> ISide(otid, size, ottype), to |-> ISide(<<1, 0, 254, 128>>, size, 2), serial |-> serial, vendor |-> 4919,
    oserial |-> <<42, 0, 0, 0>>, mult |-> 3, trigger |-> 163, cpath |-> << [k |-> "port", p |-> 1, l |-> 0], [k |-> "class", v |-> 2], [k |-> "inst", v |-> 1] >>]
